@@ -84,6 +84,11 @@ func init() {
 		"vpHashUF": func(fr *frame, a []value) value {
 			return fr.i.vpHashUF(a[0].(string), a[1].([]value))
 		},
+		"vpAnd":     func(fr *frame, a []value) value { return fr.i.boolAnd(a[0], a[1]) },
+		"vpOr":      func(fr *frame, a []value) value { return fr.i.boolOr(a[0], a[1]) },
+		"vpNot":     func(fr *frame, a []value) value { return fr.i.boolNot(a[0]) },
+		"vpImplies": func(fr *frame, a []value) value { return fr.i.boolOr(fr.i.boolNot(a[0]), a[1]) },
+		"vpEqBytes": func(fr *frame, a []value) value { return fr.i.bytesEqual(a[0].([]value), a[1].([]value)) },
 		"vpIte32": func(fr *frame, a []value) value {
 			return fr.i.ite(a[0], a[1], a[2], types.Typ[types.Uint32])
 		},
@@ -151,13 +156,62 @@ func (i *interpreter) vpAssume(c value) {
 			panic(pathEnd{"assume-false", ""})
 		}
 	case *Term:
+		i.flushAsserts()
 		i.p.assume(c, true)
 	default:
 		panic(engineError{fmt.Sprintf("vpAssume(%T)", c)})
 	}
 }
 
-// vpAssert discharges one proof obligation.
+// pendingAssert is an obligation whose discharge has been deferred so
+// that several can be decided by one query.
+type pendingAssert struct {
+	c     *Term
+	label string
+	pos   string
+}
+
+// flushAsserts discharges all pending obligations.  It must run before
+// anything is added to the path condition that is not an exhaustive
+// case split (vpAssume), and at the end of the path.
+func (i *interpreter) flushAsserts() {
+	p := i.p
+	if len(p.pending) == 0 {
+		return
+	}
+	pend := p.pending
+	p.pending = nil
+	w := p.w
+	res := w.ex.result
+	st := p.st()
+	var cs []*Term
+	for _, a := range pend {
+		cs = append(cs, a.c)
+	}
+	all := st.And(cs...)
+	w.stats.PropQueries++
+	switch w.solver.Check(st.Not(all)) {
+	case Unsat:
+		w.stats.PropUnsat++
+		res.mu.Lock()
+		for _, a := range pend {
+			res.AssertsOK[a.label]++
+		}
+		if len(res.Samples) < 8 {
+			res.Samples = append(res.Samples, fmt.Sprintf("%d obligations (%s ...): pc(%d conjuncts) AND NOT(conj) => unsat", len(pend), pend[0].label, len(p.pc)))
+		}
+		res.mu.Unlock()
+		p.addPCnoSolver(all)
+		return
+	}
+	// some obligation fails (or unknown): decide them one by one
+	w.stats.PropQueries--
+	for _, a := range pend {
+		i.dischargeNow(a.c, a.label, a.pos, "", nil)
+	}
+}
+
+// vpAssert records / discharges one proof obligation.
 func (i *interpreter) vpAssert(fr *frame, c value, label, kf string, kfCond value) {
 	p := i.p
 	w := p.w
@@ -180,6 +234,27 @@ func (i *interpreter) vpAssert(fr *frame, c value, label, kf string, kfCond valu
 	default:
 		panic(engineError{fmt.Sprintf("vpAssert(%T)", c)})
 	}
+	pos := "?"
+	if fr.caller != nil {
+		pos = fr.caller.pos()
+	}
+	if kf == "" && !ct.isFalse() && !i.prog.opts.NoDefer {
+		if v, ok := p.decided(ct); ok && v {
+			w.stats.PropConcrete++
+			return
+		}
+		p.pending = append(p.pending, pendingAssert{ct, label, pos})
+		return
+	}
+	i.flushAsserts()
+	i.dischargeNow(ct, label, pos, kf, kfCond)
+}
+
+func (i *interpreter) dischargeNow(ct *Term, label, pos, kf string, kfCond value) {
+	p := i.p
+	w := p.w
+	res := w.ex.result
+	st := p.st()
 	neg := st.Not(ct)
 	w.stats.PropQueries++
 	r := w.solver.Check(neg)
@@ -210,20 +285,20 @@ func (i *interpreter) vpAssert(fr *frame, c value, label, kf string, kfCond valu
 		}
 		if w.solver.Check(neg, kt) == Sat {
 			v := Violation{Harness: w.ex.fn, Label: label, Kind: "assert", KF: kf, Decs: append([]int(nil), p.decs...),
-				Sched: append([]int(nil), p.sched...), Msg: "at " + fr.caller.pos()}
+				Sched: append([]int(nil), p.sched...), Msg: "at " + pos}
 			v.Values = p.model()
 			res.addKnown(kf, v)
 		}
 		if w.solver.Check(neg, st.Not(kt)) == Sat {
 			v := Violation{Harness: w.ex.fn, Label: label, Kind: "assert", Decs: append([]int(nil), p.decs...),
-				Sched: append([]int(nil), p.sched...), Msg: "at " + fr.caller.pos() + " (outside known finding " + kf + ")"}
+				Sched: append([]int(nil), p.sched...), Msg: "at " + pos + " (outside known finding " + kf + ")"}
 			v.Values = p.model()
 			res.addViolation(v)
 		}
 	} else {
 		w.solver.Check(neg)
 		v := Violation{Harness: w.ex.fn, Label: label, Kind: "assert", Decs: append([]int(nil), p.decs...),
-			Sched: append([]int(nil), p.sched...), Msg: "at " + fr.caller.pos()}
+			Sched: append([]int(nil), p.sched...), Msg: "at " + pos}
 		v.Values = p.model()
 		res.addViolation(v)
 	}
@@ -288,8 +363,7 @@ func (i *interpreter) hashUF(name string, bytes []value) []value {
 			continue
 		}
 		ax := st.Implies(st.Eq(prev, app), st.Eq(prev.args[0], arg))
-		i.p.pc = append(i.p.pc, ax)
-		i.p.w.solver.Assert(ax)
+		i.p.addPC(ax)
 	}
 	// different lengths / names never collide either
 	for other, apps := range i.p.ufApps {
@@ -298,8 +372,7 @@ func (i *interpreter) hashUF(name string, bytes []value) []value {
 		}
 		for _, prev := range apps {
 			ax := st.Not(st.Eq(prev, app))
-			i.p.pc = append(i.p.pc, ax)
-			i.p.w.solver.Assert(ax)
+			i.p.addPC(ax)
 		}
 	}
 	found := false
